@@ -22,6 +22,7 @@ class Env:
 
     def __init__(self):
         self.next_fd = 100
+        self.fd_reuse = False       # True: a new socket gets the lowest descriptor number not in use (what the kernel does)
         self.sockets = []
         self.connects = []          # (addr, FakeSocket | exception)
         self.connect_script = []    # per connect attempt: None=ok | exception instance
@@ -51,8 +52,15 @@ class FakeSocket:
     def __init__(self, name, env):
         self.name = name
         self.env = env
-        self.fd = env.next_fd
-        env.next_fd += 1
+        if env.fd_reuse:
+            used = set(x.fd for x in env.sockets if not x.closed)
+            fd = 100
+            while fd in used:
+                fd += 1
+            self.fd = fd
+        else:
+            self.fd = env.next_fd
+            env.next_fd += 1
         env.sockets.append(self)
         self.inq = []          # items: bytes segment | b'' (EOF) | Exception instance
         self.out = b''         # every byte accepted by send(), in order
@@ -471,7 +479,8 @@ class Executor:
 
     def sync(self):
         for s in self.env.sockets:
-            self.ex.selector.auto[s.fd] = s
+            if not s.closed:
+                self.ex.selector.auto[s.fd] = s
 
     def step(self):
         """One iteration of the executor loop. Returns the exception that escaped, if any."""
